@@ -92,6 +92,9 @@ type c04Obs struct {
 	// caller level
 	Registered *string `json:"registered"` // "addr/role" the registry holds for the peer id afterwards
 	Notified   bool    `json:"notified"`
+	// prior_admit cases: how many disconnect notifications the rest of the node got for the peer that
+	// had been admitted, once its (only) connection is closed — whatever the second handshake did
+	DisconnectNotes *int `json:"disconnect_notes,omitempty"`
 	Blocked    *int64  `json:"blocked"` // duration of the block placed on the peer id (ns), null: none
 	// by how much the block's term began before the registry had even answered the stake look-up
 	// that led to it (ms, rounded up; 0: it began when the block was placed)
@@ -267,10 +270,13 @@ func (h *c04Host) NewStream(context.Context, peer.ID, ...protocol.ID) (network.S
 	return h.stream, nil
 }
 
-type c04Notifier struct{ connected []p2p.Peer }
+type c04Notifier struct {
+	connected    []p2p.Peer
+	disconnected int
+}
 
 func (n *c04Notifier) Connected(p p2p.Peer)  { n.connected = append(n.connected, p) }
-func (n *c04Notifier) Disconnected(p2p.Peer) {}
+func (n *c04Notifier) Disconnected(p2p.Peer) { n.disconnected++ }
 
 type c04World struct {
 	localKey  *ecdsa.PrivateKey
@@ -440,6 +446,14 @@ func c04Run(t *testing.T, in *c04In, w *c04World, ed bool) (obs c04Obs) {
 			obs.Outcome = "refused"
 		}
 		obs.Notified = len(n.connected) > 0
+		if in.Inbound && in.PriorAdmit {
+			if _, open := svc.peers.connections[pid]; open || n.disconnected == 0 {
+				// nobody closed the connection yet (the second handshake was fine): it ends now
+				svc.peers.Disconnected(c04Swarm{}, ls.conn)
+			}
+			k := n.disconnected
+			obs.DisconnectNotes = &k
+		}
 		svc.blockMu.Lock()
 		if bi, ok := svc.blockMap[pid]; ok {
 			d := int64(bi.duration)
